@@ -318,3 +318,27 @@ def arity_ok (func, call, bound=True):
   for i, p in enumerate(required):
     if i >= npos and p not in kws: return False
   return True
+
+def except_name_escapes (fnode):
+  """[(name, closure_ast, use_ast)] - a lambda / nested def created inside an
+  `except ... as NAME:` body that reads NAME and is used after the handler ended.
+  Python 3 deletes NAME at the end of the handler, so the closure raises NameError."""
+  out = []
+  for h in ast.walk(fnode):
+    if not isinstance(h, ast.ExceptHandler) or not h.name: continue
+    inside = set()
+    for st in h.body:
+      for x in ast.walk(st): inside.add(id(x))
+    for st in h.body:
+      for x in ast.walk(st):
+        if isinstance(x, (ast.Lambda, ast.FunctionDef)) and any(isinstance(y, ast.Name) and y.id == h.name and isinstance(y.ctx, ast.Load) for y in ast.walk(x)):
+          # which variable holds the closure?
+          holder = None
+          for a in ast.walk(st):
+            if isinstance(a, ast.Assign) and a.value is x and isinstance(a.targets[0], ast.Name): holder = a.targets[0].id
+          if isinstance(x, ast.FunctionDef): holder = x.name
+          if holder is None: continue
+          for u in ast.walk(fnode):
+            if isinstance(u, ast.Name) and u.id == holder and isinstance(u.ctx, ast.Load) and id(u) not in inside:
+              out.append((h.name, x, u)); break
+  return out
